@@ -1,7 +1,8 @@
 #!/bin/bash
 # integrate_builder.sh <copy-dir> : copy a builder's owned (new or changed) source files into /verif,
+# restricted to paths matching the regex <owned> (second argument), and
 # except tools/props.py (merged by hand: the diff is printed), seeded/, tools/ and pending_fixes/.
-C=$1
+C=$1; OWN=$2
 cd /verif
 tools/builder_diff.sh $C | while read -r line; do
   case "$line" in
@@ -9,9 +10,9 @@ tools/builder_diff.sh $C | while read -r line; do
     "Only in "*)
       d=$(echo "$line" | sed 's/^Only in \([^:]*\): .*/\1/'); f=$(echo "$line" | sed 's/^Only in [^:]*: //')
       case "$d" in /*) continue;; esac
-      mkdir -p "$d"; cp -r "$C/$d/$f" "$d/$f"; echo "new   $d/$f";;
+      echo "$d/$f" | grep -Eq "$OWN" || continue; mkdir -p "$d"; cp -r "$C/$d/$f" "$d/$f"; echo "new   $d/$f";;
     "Files "*)
-      f=$(echo "$line" | awk '{print $2}'); cp "$C/$f" "$f"; echo "upd   $f";;
+      f=$(echo "$line" | awk '{print $2}'); echo "$f" | grep -Eq "$OWN" || continue; cp "$C/$f" "$f"; echo "upd   $f";;
   esac
 done
 echo "---- props.py diff"; diff /verif/tools/props.py $C/tools/props.py
